@@ -107,6 +107,9 @@ pub struct Ctx {
     pub extra: BTreeMap<String, Value>,
     pub known: Vec<Known>,
     pub prop: String,
+    /// fuel of the reference interpreter for the case at hand (None: refsem::DEFAULT_FUEL);
+    /// raised for the fixed long-running scale programs only
+    pub ref_fuel: Option<u64>,
 }
 
 impl Ctx {
@@ -128,6 +131,7 @@ impl Ctx {
             of,
             sample_every: 1,
             extra: BTreeMap::new(),
+            ref_fuel: None,
         }
     }
     pub fn eval(&mut self) {
